@@ -305,6 +305,10 @@ def gen_minimal(rnd):
             kw = dict(version=vname(v), mask=rnd.randrange(4))
             if e is not None:
                 kw['error'] = LEVEL_NAME[e]
+            if v > 6:             # large symbols: the zero digit and the zero byte only (judging a version 40 symbol costs 20 ms)
+                yield Case('0', dict(kw), 'minimal')
+                yield Case(b'\x00', dict(kw), 'minimal')
+                continue
             for c in ('0', '00', '000', '7', '0000001', 1 if v > -3 else 0):
                 yield Case(c, dict(kw), 'minimal')
             if 2 in modes_of(v):
